@@ -576,11 +576,22 @@ func (vc *VC) verifyFunc(fi *FuncInfo) (res *FuncResult) {
 			}
 			ri := *baseRI
 			ri.Results = r.vals
-			o := &Obligation{Name: fmt.Sprintf("%s/ensures:%s@return%d", fi.Short, label, k), Kind: "ensures", Func: fi.Short, Goal: g, Facts: append([]*Term(nil), r.st.pc...), Clause: c.Text, Label: c.Label, Pos: c.Line, Bounded: ex.bounded, Replay: &ri}
-			if g.isTrue() {
-				o.Status = "trivial"
+			parts := []*Term{g}
+			if g.Op == "and" {
+				parts = g.Args
 			}
-			ex.obls = append(ex.obls, o)
+			facts := append([]*Term(nil), r.st.pc...)
+			for pk, pg := range parts {
+				nm := fmt.Sprintf("%s/ensures:%s@return%d", fi.Short, label, k)
+				if len(parts) > 1 {
+					nm = fmt.Sprintf("%s.%d", nm, pk)
+				}
+				o := &Obligation{Name: nm, Kind: "ensures", Func: fi.Short, Goal: pg, Facts: facts, Clause: c.Text, Label: c.Label, Pos: c.Line, Bounded: ex.bounded, Replay: &ri}
+				if pg.isTrue() {
+					o.Status = "trivial"
+				}
+				ex.obls = append(ex.obls, o)
+			}
 		}
 		if len(fi.Con.PanicsWhen) > 0 {
 			var cs []*Term
